@@ -771,7 +771,8 @@ def check(ctx):
                         written.setdefault(s_, short_path(fid_))
     vouch = [k for k in sorted(P.fns) if "::GenerationCache::" in k and "{promoted" not in k and "::{closure" not in k
              and any(strip_generics(c_.path) in EXIST_CHECKS for kk in P.family(k) if "{promoted" not in kk for c_ in P.fns[kk].calls)]
-    demanded = {x for k in vouch for kk in P.family(k) if "{promoted" not in kk for x in P.fns[kk].const_strs() if FILE_RX.match(x)}
+    from rulelib import family_strs
+    demanded = {x for k in vouch for x in family_strs(P, S, k) if FILE_RX.match(x)}
     if vouch and demanded:
         for nm_ in sorted(written):
             if nm_ in demanded:
